@@ -133,3 +133,31 @@ impl RecvHandle for Receiver {
         }
     }
 }
+
+#[cfg(feature = "verif")]
+impl JunosLocal {
+    /// verification hook: as [`JunosLocal::connect`], but spawning `program` instead of the Junos `cli`.
+    pub(crate) async fn verif_connect(program: &std::path::Path) -> Result<Self, Error> {
+        let mut child = Command::new(program)
+            .stdin(Stdio::piped())
+            .stdout(Stdio::piped())
+            .stderr(Stdio::piped())
+            .args(CLI_ARGS)
+            .kill_on_drop(true)
+            .spawn()?;
+        let stdout = child
+            .stdout
+            .take()
+            .ok_or_else(|| io::Error::other("failed to handle for child stdin"))?;
+        let stdin = child
+            .stdin
+            .take()
+            .ok_or_else(|| io::Error::other("failed to handle for child stdin"))?;
+        let handle = Arc::new(child);
+        Ok(Self {
+            handle,
+            stdin,
+            stdout,
+        })
+    }
+}
